@@ -27,3 +27,23 @@ def test_refnum():
     assert r.int_inc(r.I64_MAX, 1) == 1 << 63 and r.int_inc(r.U64_MAX, 5) == r.U64_MAX and r.int_inc(r.I64_MIN, -1) == r.I64_MIN
     assert r.int_inc(1 << 63, r.I64_MIN) == 0
     return "tables ok"
+
+
+def test_refptr():
+    from oracle import refptr as r
+    # RFC 6901 section 5 table
+    doc = ('{ k666f6f [ s626172 s62617a ] k i0 k612f62 i1 k632564 i2 k655e66 i3 k677c68 i4 k695c6a i5 k6b226c i6 k20 i7 k6d7e6e i8 }')
+    root = r.parse_annotated(doc)
+    tbl = [(b"", "object"), (b"/foo", "array"), (b"/foo/0", b"bar"), (b"/", 0), (b"/a~1b", 1), (b"/c%d", 2), (b"/e^f", 3), (b"/g|h", 4), (b"/i\\j", 5), (b"/k\"l", 6), (b"/ ", 7), (b"/m~0n", 8)]
+    for p, want in tbl:
+        n = r.evaluate(root, p)
+        assert (n.kind == want) if isinstance(want, str) else (n.val == want), (p, n.kind, n.val)
+    for bad in (b"foo", b"/foo/2", b"/foo/01", b"/foo/-", b"/nope", b"/foo/0/x", b"/foo/"):
+        try:
+            r.evaluate(root, bad)
+        except r.PtrError:
+            continue
+        raise AssertionError(bad)
+    assert r.pointer_to([b"a/b", 3, b"m~n"]) == b"/a~1b/3/m~0n"
+    assert r.unescape(b"~01") == b"~1"
+    return "RFC 6901 table ok"
